@@ -709,7 +709,7 @@ func genRcv(g *hx.Gen) {
 }
 
 func gen(g *hx.Gen) {
-	n := g.Count(400, 40000)
+	n := g.Count(300, 40000)
 	for i := 0; i < n; i++ {
 		if i%2 == 0 {
 			genSnd(g)
